@@ -241,6 +241,9 @@ pub fn record_alphabet(section: &str) -> Vec<String> {
             "300,300,{t},1,8,0:2",
             "131072,-131072,{t},1,0",
             "0,0,{t},2,0,L|131072:131072,1",
+            // end time exactly at the parse limit with a fractional start: start + (end - start) rounds above it
+            "256,192,-1.3,12,0,2147483647",
+            "64,192,-1.3,128,0,2147483647:0:0:0:0:",
             // natural length exactly at the parse limit, repeat field 0 and negative
             "-65536,0,{t},2,0,L|65536:0,1",
             "100,100,{t},2,2,L|200:100,0,100,2|4,1:2|3:1",
